@@ -262,3 +262,73 @@ func TestVerifWiringC15(t *testing.T) {
 			return nil
 		}})
 }
+
+// ---- C08: the binary's transport forwards requests and responses as they are -----------------------
+
+type encScript struct {
+	ALPN       string `json:"alpn"`
+	ClientAE   string `json:"client_ae"`   // Accept-Encoding the client sends ("" = none)
+	BackendEnc string `json:"backend_enc"` // Content-Encoding of the backend's response ("" = identity)
+}
+
+var colC08 = vstat.New("C08", "c08.wiring")
+
+func TestVerifWiringC08(t *testing.T) {
+	rig.Certs()
+	gz := []byte{0x1f, 0x8b, 0x08, 0, 0, 0, 0, 0, 0, 0xff, 0xca, 0x48, 0xcd, 0xc9, 0xc9, 0x07, 0x04, 0, 0, 0xff, 0xff, 0x86, 0xa6, 0x10, 0x36, 0x05, 0, 0, 0} // "hello"
+	vstat.Run(t, vstat.Spec[encScript]{Col: colC08, Quick: 200, Thorough: 2000,
+		Gen: func(t *rapid.T) encScript {
+			return encScript{ALPN: rapid.SampledFrom([]string{"h2", "http/1.1"}).Draw(t, "alpn"), ClientAE: rapid.SampledFrom([]string{"", "", "gzip", "br", "identity", "gzip, deflate"}).Draw(t, "ae"),
+				BackendEnc: rapid.SampledFrom([]string{"", "gzip", "gzip"}).Draw(t, "enc")}
+		},
+		Exec: func(s encScript) *vstat.Violation {
+			var ex rig.Exchange
+			var reqs []*rig.Recorded
+			var fail string
+			msg := rig.Bubble(t, func() {
+				p := rig.StartProxy(rig.ProxyOpts{Build: wired(nil), BackendRespond: func(w http.ResponseWriter, r *http.Request, rec *rig.Recorded) {
+					if s.BackendEnc != "" {
+						w.Header().Set("Content-Encoding", s.BackendEnc)
+						w.Header().Set("Content-Length", fmt.Sprint(len(gz)))
+						w.Write(gz)
+						return
+					}
+					w.Write([]byte("hello"))
+				}})
+				defer p.Stop()
+				cc, err := rig.Connect(p, []string{s.ALPN}, nil)
+				if err != nil {
+					fail = err.Error()
+					return
+				}
+				defer cc.Close()
+				rs := rig.ReqSpec{Method: "GET", Path: "/enc", Authority: "client.example", Headers: [][2]string{{"User-Agent", "x"}}}
+				if s.ClientAE != "" {
+					rs.Headers = append(rs.Headers, [2]string{"Accept-Encoding", s.ClientAE})
+				}
+				ex = cc.Do(rs)
+				rig.Wait()
+				reqs = p.Backend.Requests()
+			})
+			if msg != "" || fail != "" || len(reqs) != 1 {
+				colC08.Discard()
+				return nil
+			}
+			var want []string
+			if s.ClientAE != "" {
+				want = []string{s.ClientAE}
+			}
+			if got := reqs[0].Header.Values("Accept-Encoding"); fmt.Sprint(got) != fmt.Sprint(want) {
+				return vstat.Violf("wiring:accept-encoding|altered", "%+v: client sent Accept-Encoding %q, backend received %q", s, want, got)
+			}
+			wantBody, wantCE := []byte("hello"), ""
+			if s.BackendEnc != "" {
+				wantBody, wantCE = gz, s.BackendEnc
+			}
+			if string(ex.Body) != string(wantBody) || ex.Header.Get("Content-Encoding") != wantCE {
+				return vstat.Violf("wiring:content-encoding|response-altered", "%+v: backend sent %d bytes with Content-Encoding %q, client received %d bytes with Content-Encoding %q", s, len(wantBody), wantCE, len(ex.Body), ex.Header.Get("Content-Encoding"))
+			}
+			colC08.Case(fmt.Sprintf("%+v", s), s.ClientAE == "" || s.BackendEnc != "", s, "client-ae:"+s.ClientAE, "backend-enc:"+s.BackendEnc)
+			return nil
+		}})
+}
